@@ -1659,7 +1659,72 @@ def store_sites():
                             "fixpoint_rounds": p.rounds}
 
 
-GENERATORS = {"CropCatalogue.v": crop_catalogue, "StateFields.v": state_fields, "StoreSites.v": store_sites}
+# ---------------------------------------------------------------------------------------------------------------
+# Sources of run-to-run variation (C10): constructs whose value or iteration order can depend on the hash seed, the
+# process, the clock or the environment.  Purely syntactic, over every scanned module:
+#   set displays / comprehensions, calls of set / frozenset (iteration order of str- and float-keyed sets follows the
+#   hash seed), hash(), id(), anything reached through the modules random / secrets / uuid / time / glob, numpy.random,
+#   datetime.now/today/utcnow, os.environ / os.getenv / os.getpid / os.listdir / os.scandir / os.walk / os.urandom.
+# dicts keep insertion order (language guarantee since 3.7) and are not listed.
+ORDER_MODULES = {"random", "secrets", "uuid", "time", "glob"}
+OS_ATTRS = {"environ", "getenv", "getpid", "listdir", "scandir", "walk", "urandom", "getcwd"}
+NOW_ATTRS = {"now", "today", "utcnow"}
+
+
+def order_sources():
+    p = package()
+    rows = []
+    for mname in sorted(p.mods):
+        m = p.mods[mname]
+        # names bound to the modules of interest in this module (import random as rnd; from time import time)
+        alias = {}
+        for name, imp in m.imports.items():
+            if imp[0] == "mod":
+                alias[name] = imp[1]
+            elif imp[0] == "from":
+                alias[name] = "%s.%s" % (imp[1], imp[2])
+
+        def visit(node, qual):
+            for ch in ast.iter_child_nodes(node):
+                q = qual
+                if isinstance(ch, (ast.FunctionDef, ast.AsyncFunctionDef, ast.ClassDef)):
+                    q = ch.name if qual == "<module>" else qual + "." + ch.name
+                if isinstance(ch, ast.Set):
+                    rows.append((m.name, q, "set-display"))
+                elif isinstance(ch, ast.SetComp):
+                    rows.append((m.name, q, "set-comprehension"))
+                elif isinstance(ch, ast.Call) and isinstance(ch.func, ast.Name) and ch.func.id in ("set", "frozenset", "hash", "id") \
+                        and ch.func.id not in m.names - {"set", "frozenset", "hash", "id"}:
+                    rows.append((m.name, q, ch.func.id + "()"))
+                elif isinstance(ch, ast.Name) and isinstance(ch.ctx, ast.Load) and ch.id in alias:
+                    full = alias[ch.id]; top = full.split(".")[0]
+                    if top in ORDER_MODULES or full.startswith("numpy.random") or (top == "os" and full.split(".")[-1] in OS_ATTRS):
+                        rows.append((m.name, q, full))
+                elif isinstance(ch, ast.Attribute):
+                    root = ch
+                    chain = []
+                    while isinstance(root, ast.Attribute):
+                        chain.append(root.attr); root = root.value
+                    if isinstance(root, ast.Name) and root.id in alias:
+                        full = ".".join([alias[root.id]] + chain[::-1])
+                        parts = full.split(".")
+                        if (parts[0] == "os" and len(parts) > 1 and parts[1] in OS_ATTRS) or (parts[0] == "numpy" and len(parts) > 1 and parts[1] == "random") \
+                                or (parts[0] == "datetime" and parts[-1] in NOW_ATTRS):
+                            rows.append((m.name, q, full))
+                visit(ch, q)
+        visit(m.tree, "<module>")
+    rows = uniq(rows)
+    out = ["(* GENERATED by harness/gen_facts.py from the source text of every scanned module of /repo (see `order_sources`).",
+           "   (module, function, construct): every syntactic occurrence of a construct whose value or iteration order can",
+           "   depend on the hash seed, the process, the clock or the environment. *)",
+           "From Coq Require Import String List.", "Import ListNotations.", "Local Open Scope string_scope.", "",
+           "Definition order_sources : list (string * string * string) := ["]
+    out.append(";\n".join("  (%s, %s, %s)" % (coq_str(a), coq_str(b), coq_str(c)) for (a, b, c) in rows))
+    out += ["].", ""]
+    return "\n".join(out), {"order_sources": len(rows)}
+
+
+GENERATORS = {"CropCatalogue.v": crop_catalogue, "StateFields.v": state_fields, "StoreSites.v": store_sites, "OrderSources.v": order_sources}
 
 
 def main(argv=None):
